@@ -343,6 +343,11 @@ theorem fromStates_times_eq_all (inp : Inputs ℝ) (kCN : Nat) (hall : ∀ i, i 
     exact (key i (List.mem_range.mp hi)).2
 
 
+/-- the hypothesis `jump` of `Hyp` holds for every physically valid set of constants
+(`Phys.Valid`), in both formulations of the initial ice. -/
+theorem hyp_jump_of_valid (ph : Phys) (hv : ph.Valid) (p : Params ℝ) (hc : p.c = ph.consts) : JumpPos p :=
+  jumpPos_of_valid ph hv p hc
+
 /-! ### non-vacuity -/
 
 /-- the hypotheses are satisfiable on a concrete run in which the vial nucleates AND crosses the
